@@ -13,7 +13,13 @@ RULE = ("(i) nested values to depth 3 (quick) / 4 (thorough) over {null, bool, i
         "print identically and equal a direct depth-passing Python pretty-printer; (ii) generated programs (failing ones included) "
         "each run 4 (quick) / 8 (thorough) times through the plain CLI under varied cwd, LANG/LC_ALL, extra environment variables, "
         "path spelling (relative, ./, absolute), stdin closed, stdout to pipe or file: byte-identical stdout/stderr/status modulo "
-        "the echoed path; non-trivial = distinct (value shape) / distinct program with distinct outcome")
+        "the echoed path; (iii) values whose rendering has a line of 1000 bytes .. 64 KiB (11 string shapes around a long stretch x 9 "
+        "positions in the value x sizes around 1 KiB, 2 KiB, .. 64 KiB, literal or built by doubling), very wide (to 40960 items / 3000 "
+        "keys / 1 KiB keys) or very deep (to 257 levels; thorough 320) values, each through the CLI with stdout a pipe and a file, "
+        "against the same Python printer; (iv) each 12 times under the variants of (ii): an undefined name used (25 kinds of use site) "
+        "next to 2..6 equally similar declared names (9 declaration layouts), and `==`/`!=` on objects of 2..12 keys differing under "
+        "two or more keys in mixed ways (value, type mismatch, nested, size, missing key; literal / incremental / spread); "
+        "non-trivial = distinct (value shape) / distinct program with distinct outcome")
 ASSUMPTIONS = ["independence from the environment is a property of the binary, not of the model: the model's `run` has no input but "
                "path and source text by construction; the extracted tables `hashIterSites` and `envUses` pin the only hash-ordered "
                "iteration (collected into a BTreeMap) and the only environment / file-system uses"]
@@ -210,6 +216,296 @@ FUNC_DIAG_SCRIPTS = [
 ]
 
 
+# ------------------------------------------------------------------ (iii) very long lines, wide and deep values
+LONG_SIZES = [1000, 1023, 1024, 1025, 1280, 2047, 2048, 2049, 4096, 8191, 8192, 8193, 16384, 32768, 65535, 65536, 65537]
+
+# a string around one or two long stretches X (no line break inside X); "h" is a short line
+LONG_SHAPES = [["X"], ["h\n", "X"], ["X", "\nh"], ["X", "\n", "X"], ["X", "\n"], ["\n", "X"], ["h\n", "X", "\n"], ["h\n\n", "X"],
+               ["X", "\r\n", "X"], ["h\nh\nh\n", "X", "\n\n"], ["X", "h\n", "X"]]
+
+# where the string sits in the printed value (template over `s`, the same structure in Python)
+LONG_POSITIONS = [("s", lambda s: s), ("[s]", lambda s: [s]), ('{"k": s}', lambda s: {"k": s}), ("{s: 1}", lambda s: {s: 1}),
+                  ("[[s]]", lambda s: [[s]]), ('{"a": {"b": s}}', lambda s: {"a": {"b": s}}), ('[s, "t", s]', lambda s: [s, "t", s]),
+                  ('{"a": [s], s: null}', lambda s: {"a": [s], s: None}), ('[{"k": s, "l": 0}, s]', lambda s: [{"k": s, "l": 0}, s])]
+
+
+def filler(n, kind):
+    """exactly `n` bytes of text without a line break"""
+    if kind == "utf8":          # two-byte characters: byte length and character count differ
+        return "é" * (n // 2) + ("x" if n % 2 else "")
+    if kind == "spaces":        # looks like indentation
+        return " " * (n - 1) + "|"
+    return ("0123456789abcdef" * (n // 16 + 1))[:n]
+
+
+def long_line_scripts(ctx):
+    """[(script, expected stdout, [(single-print script, expected)])]: every print is of a value whose rendering has a line of 1000
+    bytes .. 64 KiB (or is very wide / very deep); the strings are written as literals or built by doubling and slicing"""
+    rng = ctx.rng
+    thorough = ctx.tier == "thorough"
+    out = []
+    rot = 0
+    for shape in LONG_SHAPES:
+        for tmpl, pyf in LONG_POSITIONS:
+            if thorough:
+                sizes = list(LONG_SIZES) + [rng.randrange(1024, 70000) for _ in range(3)]
+            else:
+                sizes = [LONG_SIZES[rot % len(LONG_SIZES)], rng.randrange(1000, 66000)]
+                rot += 1
+            for chunk in range(0, len(sizes), 5):
+                singles = []
+                for n in sizes[chunk:chunk + 5]:
+                    kind = rng.choice(["ascii", "ascii", "utf8", "spaces"])
+                    x = filler(n, kind)
+                    s = "".join(x if p == "X" else p for p in shape)
+                    v = pyf(s)
+                    if kind == "ascii" and rng.random() < 0.5:
+                        # built: doubling, slicing (byte offsets; the filler is ASCII), concatenation
+                        pre = (f"x := \"0123456789abcdef\"\nwhile x->len() < {n} {{\n    x = x + x\n}}\nx = x[0:{n}]\n"
+                               f"s := {' + '.join('x' if p == 'X' else lit(p) for p in shape)}\n")
+                    else:
+                        pre = f"s := {lit(s)}\n"
+                    singles.append((pre + f"print({tmpl})\n", py_print(v) + "\n"))
+                # several prints in one process: what one print leaves behind must not change the next
+                src = "".join("{\n" + "".join("    " + ln + "\n" for ln in one.rstrip("\n").split("\n")) + "}\n" for one, _ in singles)
+                out.append((src, "".join(e for _, e in singles), singles))
+    # wide: many items / many keys / long keys (the whole output is larger than a pipe's capacity)
+    for k in ((5, 9, 12) if not thorough else (5, 7, 9, 11, 12, 13)):
+        base = [0, "one", None, [3], {"four": 4}, -5, "six\nsix", True, [], {}]
+        v = base * (2 ** k)
+        src = f"r := {lit(base)}\ni := 0\nwhile i < {k} {{\n    r = r + r\n    i += 1\n}}\nprint(r)\n"
+        out.append((src, py_print(v) + "\n", []))
+    for nkeys, klen in ((400, 8), (60, 1100), (3000, 3)) + (((20000, 5), (300, 5000)) if thorough else ()):
+        ks = [str((i * 7919) % 100003) + filler(klen, "ascii") for i in range(nkeys)]
+        v = {kk: i for i, kk in enumerate(ks)}
+        out.append((f"print({lit(v)})\n", py_print(v) + "\n", []))
+    # deep: the indentation alone makes the lines long (depth 256 = 1 KiB of indentation)
+    import sys
+    old = sys.getrecursionlimit()
+    sys.setrecursionlimit(max(old, 5000))
+    try:
+        deep = [(d, leaf, wrap, pyw) for d in ((64, 255, 256, 257) if not thorough else (64, 128, 255, 256, 257, 300, 320))
+                for leaf, wrap, pyw in (('"two\\nlines"', "[r]", lambda r: [r]), ("[]", "[r]", lambda r: [r]), ("7", '{"k": r}', lambda r: {"k": r}),
+                                        ('"a\\n\\nb\\n"', '{"key": [r]}', lambda r: {"key": [r]}))]
+        # branching: every level doubles the size
+        deep += [(d, '"a\\n\\nb\\n"', '{"k": r, "l": [r]}', lambda r: {"k": r, "l": [r]}) for d in ((8, 11) if not thorough else (8, 11, 13))]
+        for d, leaf, wrap, pyw in deep:
+            v = eval(leaf)
+            for _ in range(d):
+                v = pyw(v)
+            src = f"r := {leaf}\ni := 0\nwhile i < {d} {{\n    r = {wrap}\n    i += 1\n}}\nprint(r)\nprint(\"end\")\n"
+            out.append((src, py_print(v) + "\nend\n", []))
+    finally:
+        sys.setrecursionlimit(old)
+    return out
+
+
+def check_long_lines(ctx):
+    import concurrent.futures as cf
+    cases = long_line_scripts(ctx)
+    jobs = [(i, k) for i in range(len(cases)) for k in (0, 2)]      # variant 0: stdout is a pipe, variant 2: stdout is a file
+    with cf.ThreadPoolExecutor(max_workers=core.NPROC) as ex:
+        results = list(ex.map(lambda ik: run_variant(cases[ik[0]][0], ik[1], None), jobs))
+    ctx.count("long-lines:cli", len(jobs))
+    ctx.cov["cli_reconfirmed"] += len(jobs)
+    nrep = 0
+    seen = set()
+    for (i, k), (o, e, rc) in zip(jobs, results):
+        src, exp, singles = cases[i]
+        ctx.nontrivial(("long", i, len(exp)))
+        ctx.dist("long:" + ("file" if k == 2 else "pipe"))
+        if (o, e, rc) == (exp.encode("utf-8"), b"", 0) or i in seen or nrep >= 3:
+            continue
+        # narrow down to one print where that is possible, and confirm
+        for one, exp1 in (singles + [(src, exp)]):
+            o1, e1, rc1 = run_variant(one, k, None)
+            if (o1, e1, rc1) != (exp1.encode("utf-8"), b"", 0):
+                seen.add(i)
+                nrep += 1
+                got = o1.decode("utf-8", errors="replace")
+                c = core.run_cli(one)
+                # (a replay compares with the recorded plain run, which has stdout on a pipe: record it as the observation only
+                # when it shows the failure itself)
+                ckey = "cli" if (c["stdout"], c["status"]) != (exp1, "0") else "cli_with_stdout_on_a_pipe_is_as_expected"
+                at = next((j for j, (a, b) in enumerate(zip(got, exp1)) if a != b), min(len(got), len(exp1)))
+                ctx.violation("print did not write the canonical rendering followed by one newline (a value with a very long line, "
+                              "very wide or very deep)", one,
+                              {"stdout_is": "file" if k == 2 else "pipe", "expected_len": len(exp1), "got_len": len(got), "status": rc1,
+                               "stderr": e1.decode("utf-8", errors="replace")[:300], "first_difference_at_char": at,
+                               "expected_there": exp1[max(0, at - 40):at + 40], "got_there": got[max(0, at - 40):at + 40],
+                               ckey: c})
+                break
+    k = len(cases) // 3
+    ctx.sample({"stream": "long-lines", "src": cases[k][0][:300], "expected_len": len(cases[k][1])})
+
+
+# ------------------------------------------------------------------ (iv) repeated runs of scripts whose outcome could follow a hash order
+def _near(u, style, letters):
+    """identifiers equally far from `u` by construction (the same edit at the same place, with different letters)"""
+    if style == "subst-last":
+        return [u[:-1] + c for c in letters if c != u[-1]]
+    if style == "append":
+        return [u + c for c in letters]
+    if style == "prepend":
+        return [c + u for c in letters if not c.isdigit()]
+    if style == "subst-mid":
+        m = len(u) // 2
+        return [u[:m] + c + u[m + 1:] for c in letters if c != u[m]]
+    if style == "append2":
+        return [u + c + c for c in letters]
+    return [u[:-1] + c + u[-1] for c in letters]       # insert before the last character
+
+
+UNDEF_SITES = ["print(@)", "y := @ + 1", "y := [1, @]", "y := {\"k\": @}", "y := {@}", "@()", "@(1, 2)", "y := @.k", "y := @[0]", "@ = 1", "@ += 1",
+               "@.k = 1", "@[0] = 1", "y := $\"a${@}b\"", "print(ident(@))", "if @ {\n    print(1)\n}", "for x in @ {\n    print(x)\n}",
+               "y := 0 - @", "[y0, @] = [1, 2]", "y := [@..]", "y := 1->@()", "y := @ == @", "y := [1, 2][@]", "y := {\"k\": 1}[@]", "y := true && @"]
+
+
+def undefined_name_scripts(ctx):
+    """an undefined name used next to 2..6 declared names that are all equally similar to it (declared at top level, in a function,
+    as parameters, in a block, split over scopes, by patterns, as loop variables), at every kind of use site"""
+    rng = ctx.rng
+    out = []
+    layouts = ["top", "fn", "params", "block", "split", "nested-fn", "list-pattern", "object-pattern", "for"]
+    stems = ["total_d", "count", "idx", "n1", "valueOfX", "ab", "tmp_0", "resume", "i", "print_", "typ"]
+    for site in UNDEF_SITES:
+        for layout in (layouts if ctx.tier == "thorough" else rng.sample(layouts, 2)):
+            u = rng.choice(stems)
+            style = rng.choice(["subst-last", "append", "prepend", "subst-mid", "append2", "insert"])
+            if len(u) == 1 and style in ("subst-last", "subst-mid"):
+                style = "append"
+            cands = [c for c in dict.fromkeys(_near(u, style, "abcdefgxyzABZ_019")) if c != u and c not in ("y", "x", "y0", "ident", "print", "f", "g", "if", "in", "fn", "type", "len")]
+            names = rng.sample(cands, rng.choice([2, 2, 3, 4, 6]))
+            far = ["unrelated_name", "q"]
+            use = site.replace("@", u)
+            ind = lambda text, n=1: "".join("    " * n + ln + "\n" for ln in text.split("\n"))
+            decl = "".join(f"{nm} := {i}\n" for i, nm in enumerate(names + far))
+            head = ("fn ident(a) {\n    return a\n}\n" if "ident" in site else "") + ("y0 := 0\n" if "y0" in site else "") + "print(\"start\")\n"
+            if layout == "top":
+                body = decl + use + "\n"
+            elif layout == "fn":
+                body = "fn f() {\n" + ind(decl.rstrip("\n")) + ind(use) + "    return 0\n}\nf()\n"
+            elif layout == "params":
+                body = f"fn f({', '.join(names)}) {{\n" + ind(use) + "    return 0\n}\n" + f"f({', '.join(str(i) for i in range(len(names)))})\n"
+            elif layout == "block":
+                body = "if true {\n" + ind(decl.rstrip("\n")) + ind(use) + "}\n"
+            elif layout == "split":
+                h = len(names) // 2
+                body = ("".join(f"{nm} := 0\n" for nm in names[:h]) + "loop_counter := 0\nwhile loop_counter < 1 {\n" + "".join(f"    {nm} := 1\n" for nm in names[h:])
+                        + ind(use) + "    loop_counter += 1\n}\n")
+            elif layout == "nested-fn":
+                body = decl + "fn g() {\n" + ind(use) + "    return 0\n}\nfn f() {\n    return g()\n}\nf()\n"
+            elif layout == "list-pattern":
+                body = f"[{', '.join(names)}] := [{', '.join('0' for _ in names)}]\n" + use + "\n"
+            elif layout == "object-pattern":
+                body = f"{{{', '.join(names)}}} := {{{', '.join(lit(nm) + ': 0' for nm in names)}}}\n" + use + "\n"
+            else:
+                body = f"for [{', '.join(names)}] in [[{', '.join('0' for _ in names)}]] {{\n" + ind(use) + "}\n"
+            out.append(head + body + "print(\"end\")\n")
+    # names that are not variables: properties, keys, type functions next to several similar ones
+    o = "o := {\"total_a\": 1, \"total_b\": 2, \"total_c\": 3, \"total_e\": 4, \"totalled\": 5}\n"
+    for use in ("print(o.total_d)", "print(o[\"total_d\"])", "{total_d} := o", "o.total_d += 1", "o[\"total_d\"] += 1", "{\"total_d\": z} := o",
+                "{total_a, total_d, total_f} := o", "print(o->total_d())", "print(\"s\"->lem())", "print([1]->lem())", "print(1->tipe())",
+                "{total_d, ..rest} := o", "print(o.total_d.x)", "print(o.total_a.total_d)"):
+        out.append("print(\"start\")\n" + o + use + "\nprint(\"end\")\n")
+    return out
+
+
+EQ_DIFFS = {
+    "value": [(1, 2), ("s", "t"), (True, False), ([1, 2], [1, 3]), ({"p": 1}, {"p": 2}), ("", "x"), (0, -1)],
+    "type": [(1, "1"), (None, False), ([1], {"0": 1}), (1, [1]), ("", None), (True, 1), ({}, []), ("a", ["a"])],
+    "nested-type": [({"p": 1, "q": 2}, {"p": "1", "q": 3}), ([1, "a"], [1, 2]), ({"p": {"q": None}}, {"p": {"q": 0}}), ([[1]], [["1"]]),
+                    ({"p": 1, "q": 1, "r": 1}, {"p": 2, "q": "1", "r": None})],
+    "size": [([1], [1, 2]), ({"p": 1}, {"p": 1, "q": 2}), ([], [0]), ({}, {"p": None})],
+}
+EQ_FORMS = ["print(a == b)", "print(a != b)", "print(b == a)", "print([a] == [b])", "print({\"w\": a} != {\"w\": b})", "print([0, a, 1] == [0, b, 1])",
+            "if a == b {\n    print(\"eq\")\n} else {\n    print(\"ne\")\n}", "print({a..} == {b..})", "print([a, a] != [a, b])",
+            "print({\"u\": 1, \"w\": a, \"x\": \"s\"} == {\"u\": 1, \"w\": b, \"x\": 0})", "c := a == b\nprint(c)", "print((a == b) == false)"]
+EQ_KEYS = ["a", "b", "c", "d", "e", "f", "g", "h", "i", "j", "k", "l", "key", "Key", "k k", "é", "", "0", "10", "9", "_", "zz", "a.b", "longer key name",
+           "ключ", "x" * 40]
+
+
+def object_eq_scripts(ctx):
+    """`==` / `!=` between two objects with 2..12 keys that differ under two or more of them, the differences being of mixed kinds
+    (unequal values, a type mismatch, a mismatch deeper inside, another size, a key only one side has); literal, incrementally built
+    (shuffled insertion order) and spread objects; the comparison at top level and inside lists / objects / a condition"""
+    import copy
+    rng = ctx.rng
+    out = []
+    n = 400 if ctx.tier == "thorough" else 48
+    for j in range(n):
+        nk = rng.choice([2, 3, 3, 4, 5, 6, 8, 12])
+        keys = rng.sample(EQ_KEYS, nk)
+        nd = rng.randint(2, min(nk, rng.choice([2, 3, 5, 12])))
+        dk = rng.sample(keys, nd)
+        kinds = [rng.choice(["value", "type", "nested-type", "size", "missing"]) for _ in dk]
+        if j % 4 != 3 and not any(kd in ("type", "nested-type") for kd in kinds):
+            kinds[rng.randrange(nd)] = "type"      # mostly: at least one difference that cannot be compared
+        if j % 4 != 3 and all(kd in ("type", "nested-type") for kd in kinds):
+            kinds[rng.randrange(nd)] = rng.choice(["value", "size", "missing"])
+        a, b = {}, {}
+        for kk in keys:
+            if kk in dk:
+                kind = kinds[dk.index(kk)]
+                if kind == "missing":
+                    (a if rng.random() < 0.5 else b)[kk] = rng.choice([1, "s", None, [1]])
+                    continue
+                l, r = copy.deepcopy(rng.choice(EQ_DIFFS[kind]))
+                if rng.random() < 0.5:
+                    l, r = r, l
+                a[kk], b[kk] = l, r
+            else:
+                a[kk] = copy.deepcopy(rng.choice([1, "s", None, True, [1, "a"], {"p": [None]}, [], {}]))
+                b[kk] = copy.deepcopy(a[kk])
+        items = list(b.items())
+        rng.shuffle(items)
+        b = dict(items)
+        lines = []
+        for nm, v in (("a", a), ("b", b)):
+            how = rng.choice(["literal", "incremental", "spread"])
+            if how == "literal":
+                lines.append(f"{nm} := {lit(v)}")
+            else:
+                bld = Builder(rng)
+                bld.n = 100 if nm == "b" else 0
+                top = bld.build(v, how)
+                lines += bld.lines + [f"{nm} := {top}"]
+        forms = rng.sample(EQ_FORMS, 2)
+        out.append("\n".join(lines) + "\nprint(\"start\")\n" + forms[0] + "\nprint(\"next\")\n" + forms[1] + "\nprint(\"end\")\n")
+    return out
+
+
+def check_repeated(ctx, scripts, label, reps=12):
+    """each script `reps` times through the plain CLI (under the environment variants): byte-identical stdout, stderr, status"""
+    import concurrent.futures as cf
+    scripts = list(dict.fromkeys(scripts))
+    jobs = [(i, k) for i in range(len(scripts)) for k in range(reps)]
+    with cf.ThreadPoolExecutor(max_workers=core.NPROC) as ex:
+        results = list(ex.map(lambda ik: run_variant(scripts[ik[0]], ik[1], None), jobs))
+    ctx.count(f"determinism:{label}:cli", len(jobs))
+    ctx.cov["cli_reconfirmed"] += len(jobs)
+    by = {}
+    for (i, k), res in zip(jobs, results):
+        by.setdefault(i, []).append((k, res))
+    failing = []
+    for i, rs in by.items():
+        first = rs[0][1]
+        ctx.nontrivial((label, i, first[2], first[1][:60], first[0][-20:]))
+        ctx.dist(f"{label}:status:" + str(first[2]))
+        outcomes = {res for _, res in rs}
+        if len(outcomes) > 1:
+            failing.append((len(scripts[i]), i, next(k for k, res in rs if res != first), len(outcomes)))
+    failing.sort()
+    dec = lambda res: [x.decode(errors="replace") if isinstance(x, bytes) else x for x in res]
+    for _, i, k, nout in failing[:3]:
+        rs = dict(by[i])
+        ctx.violation(f"the same script behaved differently from one run to the next ({nout} distinct outcomes in {reps} runs; first "
+                      f"differing run: environment variant {k})", scripts[i],
+                      {"variant0": dec(rs[0]), f"variant{k}": dec(rs[k]), "distinct_outcomes": nout, "runs": reps,
+                       "scripts_with_differing_runs": len(failing), "stream": label})
+    ctx.sample({"stream": label, "src": scripts[len(scripts) // 2][:400], "runs": reps, "outcome": dec(by[len(scripts) // 2][0][1])[:2]})
+
+
 # ------------------------------------------------------------------ (ii) determinism under a varied environment
 def run_variant(src, k, base):
     d = Path(tempfile.mkdtemp(prefix="det", dir=str(core.BUILD)))
@@ -270,7 +566,7 @@ def oracle_one(ctx, src, r):
     """replay: the stored script under the environment variants, twice under the first"""
     body = src.encode("utf-8", errors="surrogateescape").decode("utf-8", errors="replace")
     first = run_variant(body, 0, None)
-    for k in (0, 1, 2, 3, 4):
+    for k in (0, 1, 2, 3, 4, 5, 6, 7, 8, 9, 10, 11):
         res = run_variant(body, k, None)
         if res != first:
             return False, f"the same script behaved differently under environment variant {k}: {first!r} vs {res!r}"[:600]
@@ -371,4 +667,9 @@ def run(ctx, model_ok):
                               {"variant0": [x.decode(errors='replace') if isinstance(x, bytes) else x for x in first],
                                f"variant{k}": [x.decode(errors='replace') if isinstance(x, bytes) else x for x in res]})
                 break
+    # (iv) outcomes that could follow a hash order: each script 12 times
+    check_repeated(ctx, undefined_name_scripts(ctx), "undefined-names")
+    check_repeated(ctx, object_eq_scripts(ctx), "object-eq")
+    # (iii)
+    check_long_lines(ctx)
     ctx.sample({"stream": "determinism", "src": ps[0][:300], "runs": reps, "outcome": [x.decode(errors="replace") if isinstance(x, bytes) else x for x in by[0][0][1]][:2]})
